@@ -120,7 +120,7 @@ func Run(r *vh.Run) {
 		{"slowrpc", r.Pick(2, 20), scenSlowRPC, false},
 		{"shutdown", r.Pick(14, 252), scenShutdown, false},
 		{"srv", r.Pick(3, 60), scenSrv, false},
-		{"wallet", r.Pick(2, 30), scenWallet, false},
+		{"wallet", r.Pick(3, 30), scenWallet, false},
 		{"walletnow", r.Pick(2, 12), scenWalletNow, false},
 	}
 	var slow []string
@@ -1611,6 +1611,13 @@ func scenWalletNow(name string, rng *vh.RNG, r *vh.Run) {
 	core, logs := observer.New(zap.DebugLevel)
 	log := zap.New(core)
 	notCancelled, first := 0, -1
+	// every wallet stays reachable until the recording has been read: recorded events identify a
+	// thread group by its address, which the allocator reuses for a later wallet's group once the
+	// earlier one is garbage (seen once as a spurious "Add after Stop" in this family)
+	var keep []*wallet.SingleAddressWallet
+	if v := os.Getenv("VERIF_C18_WALLETNOW_ITERS"); v != "" {
+		fmt.Sscanf(v, "%d", &iters)
+	}
 	prev := runtime.GOMAXPROCS(0)
 	for i := 0; i < iters; i++ {
 		if i == 0 {
@@ -1626,6 +1633,9 @@ func scenWalletNow(name string, rng *vh.RNG, r *vh.Run) {
 			return
 		}
 		w.Close()
+		if os.Getenv("VERIF_C18_WALLETNOW_NORETAIN") == "" {
+			keep = append(keep, w)
+		}
 		if cm.cancelled.Load() == before {
 			notCancelled++
 			if first < 0 {
@@ -1647,7 +1657,17 @@ func scenWalletNow(name string, rng *vh.RNG, r *vh.Run) {
 	}
 	c.Nontrivial = true
 	c.Key = fmt.Sprintf("%s/%d", name, iters)
-	for _, tc := range tgCases(name, events, nil, []string{"scen:walletnow"})[:min(4, len(tgCases(name, events, nil, nil)))] {
+	runtime.KeepAlive(keep)
+	tcs := tgCases(name, events, nil, []string{"scen:walletnow"})
+	reused := 0
+	for _, b := range tgBoundaries {
+		reused += len(b)
+	}
+	c.Info["thread_group_addresses_reused"] = reused
+	if os.Getenv("VERIF_C18_WALLETNOW_ITERS") == "" && len(tcs) > 8 {
+		tcs = tcs[:8]
+	}
+	for _, tc := range tcs {
 		r.Add(tc)
 	}
 }
@@ -2586,14 +2606,17 @@ type gateWalletStore struct {
 	open   bool
 	inside int
 	calls  int
+	// the first passFirst calls pass even when the gate is shut (the constructor's own call)
+	passFirst int
 }
 
 func (g *gateWalletStore) BroadcastedSets() ([]wallet.BroadcastedSet, error) {
 	g.mu.Lock()
 	g.inside++
 	g.calls++
+	n := g.calls
 	g.cond.Broadcast()
-	for !g.open {
+	for !g.open && n > g.passFirst {
 		g.cond.Wait()
 	}
 	g.inside--
@@ -2604,8 +2627,12 @@ func (g *gateWalletStore) BroadcastedSets() ([]wallet.BroadcastedSet, error) {
 func scenWallet(name string, rng *vh.RNG, r *vh.Run) {
 	idx := 0
 	fmt.Sscanf(name[len("wallet"):], "%d", &idx)
-	hold := idx%2 == 0 // even: a rebroadcast round is held inside the store while Close is called
-	c := &vh.Case{Name: name, Tags: []string{"scen:wallet", fmt.Sprintf("wallet-hold:%v", hold)}, Info: map[string]any{"hold": hold}}
+	// 0: a rebroadcast round is held inside the store while Close is called; 1: Close at a random
+	// moment; 2: like 0 for a wallet REOPENED on a store that already holds a broadcasted set (the
+	// store is gated from the constructor's own read on, so whatever the wallet starts first is held)
+	variant := idx % 3
+	hold := variant != 1
+	c := &vh.Case{Name: name, Tags: []string{"scen:wallet", fmt.Sprintf("wallet-variant:%d", variant)}, Info: map[string]any{"variant": variant}}
 	defer func() { r.Add(c) }()
 	threadgroup.VerifStart()
 	n, genesis := testutil.V2Network()
@@ -2617,6 +2644,11 @@ func scenWallet(name string, rng *vh.RNG, r *vh.Run) {
 	cm := chain.NewManager(store, ts)
 	gw := &gateWalletStore{EphemeralWalletStore: testutil.NewEphemeralWalletStore(), open: true}
 	gw.cond = sync.NewCond(&gw.mu)
+	if variant == 2 {
+		gw.EphemeralWalletStore.AddBroadcastedSet(wallet.BroadcastedSet{Basis: cm.Tip(), BroadcastedAt: time.Now(),
+			Transactions: []types.V2Transaction{{ArbitraryData: []byte("c18")}}})
+		gw.open, gw.passFirst = false, 1
+	}
 	w, err := wallet.NewSingleAddressWallet(types.GeneratePrivateKey(), cm, gw, &testutil.MockSyncer{}, wallet.WithDebounceInterval(2*time.Millisecond))
 	if err != nil {
 		orc(c, "setup", "%v", err)
@@ -2652,12 +2684,13 @@ func scenWallet(name string, rng *vh.RNG, r *vh.Run) {
 		close(closeDone)
 	}()
 	if hold {
+		// (the verdict is taken by the closing goroutine at the moment Close returns)
 		time.Sleep(time.Duration(2+rng.Intn(10)) * time.Millisecond)
-		select {
-		case <-closeDone:
-			orc(c, "wallet-close-returned-with-work-running", "SingleAddressWallet.Close returned although the rebroadcast loop is held inside the store")
-		default:
+		gw.mu.Lock()
+		if gw.inside == 0 {
+			c.Tags = append(c.Tags, "wallet:rebroadcast-not-started")
 		}
+		gw.mu.Unlock()
 		gw.mu.Lock()
 		gw.open = true
 		gw.cond.Broadcast()
